@@ -110,6 +110,52 @@ def drive(tier):
             kk, res = call(pk.verify, dgs[j_], sgs[j_])
             R.add("key.verify", {"pub": b2l(pk), "digest": b2l(dgs[j_]), "sig": b2l(sgs[j_]), "case": "cross-object-%d-%d" % (i_, j_)},
                   {"k": "ret", "res": bool(res)} if kk == "ret" else dict(exc_info(res), k="exc"), _cost=1000)
+    # signatures with short r and s (8..12 bytes of DER) that do verify: the key is computed for them, Q = (sR - eG) / r
+    # (plain affine arithmetic as a generator only - the verdict is the specification's)
+    P_ = 2 ** 256 - 2 ** 32 - 977
+    GX = 0x79BE667EF9DCBBAC55A06295CE870B07029BFCDB2DCE28D959F2815B16F81798
+    GY = 0x483ADA7726A3C4655DA4FBFC0E1108A8FD17B448A68554199C47D08FFB10D4B8
+
+    def padd(a, b):
+        if a is None:
+            return b
+        if b is None:
+            return a
+        if a[0] == b[0] and (a[1] + b[1]) % P_ == 0:
+            return None
+        lam = (3 * a[0] * a[0] * pow(2 * a[1], -1, P_)) % P_ if a == b else ((b[1] - a[1]) * pow(b[0] - a[0], -1, P_)) % P_
+        x3 = (lam * lam - a[0] - b[0]) % P_
+        return (x3, (lam * (a[0] - x3) - a[1]) % P_)
+
+    def pmul(k_, pt):
+        acc = None
+        while k_:
+            if k_ & 1:
+                acc = padd(acc, pt)
+            pt = padd(pt, pt)
+            k_ >>= 1
+        return acc
+    short = []
+    for rs_ in [(1, 1), (2, 3), (3, 127), (4, 1), (127, 127), (6, 0x80), (0x80, 5), (0xffff, 0x7fff), (7, 2 ** 64 + 1)][:(5 if tier == "quick" else 9)]:
+        r0, s0 = rs_
+        while pow((r0 ** 3 + 7) % P_, (P_ - 1) // 2, P_) != 1:        # next x that is on the curve
+            r0 += 1
+        y0 = pow((r0 ** 3 + 7) % P_, (P_ + 1) // 4, P_)
+        e = int.from_bytes(gen.rbytes(r, 32), "big")
+        sR = pmul(s0, (r0, y0))
+        eG = pmul(e % N, (GX, GY))
+        Q = pmul(pow(r0, -1, N), padd(sR, (eG[0], (-eG[1]) % P_)))
+        if Q is None:
+            continue
+        pubs_ = [b"\x04" + Q[0].to_bytes(32, "big") + Q[1].to_bytes(32, "big"), bytes([2 + (Q[1] & 1)]) + Q[0].to_bytes(32, "big")]
+        dg = e.to_bytes(32, "big")
+        for pb in pubs_:
+            short.append(("short-valid", pb, dg, der(r0, s0)))
+            short.append(("short-other-digest", pb, gen.rbytes(r, 32), der(r0, s0)))
+    for name, pb, dg, sg in short:
+        kk, res = call(lambda: CPubKey(pb).verify(dg, sg))
+        R.add("key.verify", {"pub": b2l(pb), "digest": b2l(dg), "sig": b2l(sg), "case": name},
+              {"k": "ret", "res": bool(res)} if kk == "ret" else dict(exc_info(res), k="exc"), _cost=1000)
     # candidate public keys of 33 / 65 bytes
     bitcoin.SelectParams("mainnet")
     cand = []
